@@ -5,7 +5,8 @@
  *  sem <threads> <init>          own handles of one name, acquire / section / release; second name untouched
  *  shmcreate <participants>      concurrent first-time p_shm_new on a fresh name, then lock; counter++; unlock
  *  shmlock <participants>        segment created by main first; participants open, lock; counter++; unlock
- *  shmbuf <script> <script> ...  own PShmBuffer handles of one name; script chars: w = write 2 bytes, r = read up to 3 bytes, u = used space, c = clear
+ *  shmbuf <script> <script> ...  own PShmBuffer handles of one name; script chars: w = write 2 bytes, r = read up to 3 bytes, u = used space, c = clear,
+ *                                X = write of capacity + 1 bytes (must be refused, change nothing - and leave the buffer's lock a lock)
  */
 #include <plibsys.h>
 #include "mc.h"
@@ -172,6 +173,7 @@ static void *buf_thread(void *arg)
     for (i = 0; i < BT[me].n; i++) {
         BOp *o = &BT[me].op[i];
         if (o->op == 'w') { o->data[0] = (unsigned char)(16 * (me + 1) + next_byte[me]++); o->data[1] = (unsigned char)(16 * (me + 1) + next_byte[me]++); o->n = 2; o->res = (int)p_shm_buffer_write(b, o->data, 2, NULL); }
+        else if (o->op == 'X') { unsigned char big[CAP + 1]; memset(big, 0xEE, sizeof big); o->res = (int)p_shm_buffer_write(b, big, CAP + 1, NULL); o->n = 0; }
         else if (o->op == 'r') { memset(o->data, 0, 4); o->res = p_shm_buffer_read(b, o->data, 3, NULL); o->n = o->res > 0 ? o->res : 0; }
         else if (o->op == 'u') { o->res = (int)p_shm_buffer_get_used_space(b, NULL); }
         else if (o->op == 'c') { p_shm_buffer_clear(b); o->res = 0; }
@@ -189,6 +191,7 @@ static int seq_search(int *pos, unsigned char *q, int qn)
         if (o->op == 'w') { if (CAP - qn >= 2) { ok = o->res == 2; q2[qn2++] = o->data[0]; q2[qn2++] = o->data[1]; } else ok = o->res == 0; }
         else if (o->op == 'r') { int want = qn < 3 ? qn : 3; ok = o->res == want && !memcmp(o->data, q, want); memmove(q2, q2 + want, qn - want); qn2 = qn - want; }
         else if (o->op == 'u') ok = o->res == qn;
+        else if (o->op == 'X') ok = o->res == 0;
         else { qn2 = 0; ok = 1; }
         if (ok) { pos[t]++; if (seq_search(pos, q2, qn2)) { pos[t]--; return 1; } pos[t]--; }
     }
